@@ -219,6 +219,28 @@ def gen(tier: str, seed: int) -> list[Case]:
     allow_diamond = "inherit:diamond" not in gated
     n = 30 if tier == "quick" else 1600
     cases = []
+    # canonical shapes, present on every seed: a private class with two / three private bases below a public class,
+    # a diamond, a chain of four, private bases in another module, overriding at the middle level
+    def H(name, module, bases=(), methods=()):
+        c = HClass(name, module)
+        c.bases = list(bases)
+        c.methods = [(m, "inst") for m in methods]
+        return c
+
+    a, b, c3 = H("_CanA", "hier_a0", methods=["alpha"]), H("_CanB", "hier_a0", methods=["beta_two"]), H("_CanC", "hier_b0", methods=["gamma"])
+    mid2 = H("_CanMid2", "hier_a0", [a, b], ["epsilon"])
+    mid3 = H("_CanMid3", "hier_b0", [c3, a, b])
+    top, left, right = H("_CanTop", "hier_a0", methods=["shared_name"]), None, None
+    left, right = H("_CanLeft", "hier_a0", [top], ["alpha"]), H("_CanRight", "hier_a0", [top], ["beta_two"])
+    chain1 = H("_CanChain1", "hier_a0", methods=["delta_far_only"])
+    chain2 = H("_CanChain2", "hier_a0", [chain1], ["gamma"])
+    chain3 = H("_CanChain3", "hier_b0", [chain2], ["gamma"])
+    canon = [a, b, c3, mid2, mid3, top, left, right, chain1, chain2, chain3,
+             H("CanTwo", "hier_a0", [mid2], ["own_m"]), H("CanThree", "hier_b0", [mid3]), H("CanDiamond", "hier_a0", [left, right]),
+             H("CanChain", "hier_b0", [chain3], ["epsilon"]), H("CanDirectTwo", "hier_a0", [b, a])]
+    canon_truth = cpython_truth(canon)
+    for nc in (False, True):
+        cases.append(Case(cid=f"c17-canonical-{int(nc)}", files=render_modules(canon), opts=["-nc"] if nc else [], meta={"truth": canon_truth, "kinds": {k.name: dict(k.methods) for k in canon}, "classes": {k.name: k for k in canon}}, reach=REACH))
     i = 0
     while len(cases) < n:
         i += 1
